@@ -78,6 +78,15 @@ FACTORS = [
     ("{fs[0](a) + fs[1](b)}", ["a", "b"]),               # call of a subscript (fs is a context list of functions)
     ("{a * len('x'.join(['p', 'q']))}", ["a"]),          # method of a literal
     ("{np.abs(a - b).max() * a}", ["a", "b"]),           # method of a call result
+    ("{h(a)(b)}", ["a", "b"]),                           # call of a call result (h is a context function returning a function)
+    # a back-quoted name and the identifier equal to its sanitised alias inside the SAME Python factor (both orders)
+    ("I(`a b` + a_b)", ["a b", "a_b"]),
+    ("I(a_b * `a b`)", ["a b", "a_b"]),
+    ("{a_b + f(`a b`, a_b)}", ["a b", "a_b"]),
+    # reported clean-tree corner cases (see notes/c17.md: X-a, X-c, X-d)
+    ("log", ["log"]),                                    # a data column named like a built-in transform
+    ("0.0:b", ["b"]),                                    # a term scaled by zero still evaluates its factor
+    ("Q('a b')", ["a b"]),                               # column referenced through the Q() quoting helper
 ]
 LHS = [("", []), ("y ~ ", ["y"]), ("log(y) ~ ", ["y"]), ("`y z` ~ ", ["y z"])]
 
@@ -90,6 +99,7 @@ COLUMNS = {
     "a b": [1.5, 2.5, 0.5, 4.0, 6.0, 3.0],
     "a_b": [0.1, 0.2, 0.3, 0.4, 0.5, 0.6],
     "gi": [0, 1, 0, 1, 1, 0],
+    "log": [2.0, 3.0, 1.0, 5.0, 4.0, 6.0],
     "a.real": [9.0, 8.0, 7.0, 5.0, 6.0, 4.0],
     "n:s": [2.0, 4.0, 8.0, 1.0, 3.0, 9.0],
     "y": [1.0, 2.0, 4.0, 3.0, 6.0, 5.0],
@@ -114,8 +124,12 @@ def _g(x):
     return x * 2
 
 
+def _h(x):
+    return lambda y: x + y
+
+
 REQ_CONTEXT = {"f": _f, "g": _g, "offsets": np.array([10.0, 20.0]), "lut": np.array([0.5, 2.0]), "kk": 2,
-               "fs": [_g, np.square]}
+               "fs": [_g, np.square], "h": _h}
 
 
 def outcome(fn):
@@ -149,13 +163,18 @@ def drv_required(c, ctx, col):
             parts.append(facs[k])
     lhs_i = c.choose(len(ctx["lhs"]))
     lhs_text, lhs_needs = ctx["lhs"][lhs_i]
+    if "0.0:b" in [p_[0] for p_ in parts] and "b" in [p_[0] for p_ in parts]:
+        raise Skip()  # `b + 0.0:b` is rejected by the parser (same term with two scalings)
+    if any(p_[0] == "log" for p_ in parts) and re.search(r"(?<![\w.])log\(", lhs_text + " ".join(p_[0] for p_ in parts)):
+        col.count("scope:column-log-would-shadow-the-transform-of-another-factor")
+        raise Skip()
     rhs_text = {"single": "%s", "sum": "%s + %s", "interaction": "%s:%s", "sum+interaction": "%s + %s:%s"}[shape] % tuple(p[0] for p in parts)
     text = lhs_text + rhs_text
     needs = sorted(set(lhs_needs).union(*[p[1] for p in parts]))
     full = frame(set(needs) | {"zz"})
     tag = "factors=%s" % [p[0] for p in parts]
     base_repro = ("import pandas as pd, numpy as np; from formulaic import *; f = lambda x, y: x + y; g = lambda x: x * 2; "
-                  "offsets = np.array([10., 20.]); lut = np.array([.5, 2.]); kk = 2; fs = [g, np.square]; "
+                  "offsets = np.array([10., 20.]); lut = np.array([.5, 2.]); kk = 2; fs = [g, np.square]; h = lambda x: (lambda y: x + y); "
                   "full = pd.DataFrame(%r).astype({%s}); " % (full.to_dict("list"), ", ".join("%r: object" % k for k in ("A", "G", "H") if k in full)))
     col.sample({"formula": text, "columns_read": needs})
 
@@ -174,6 +193,19 @@ def drv_required(c, ctx, col):
         bad("full-frame-materialization-fails", "full frame", {"outcome": o, "repro": base_repro + "model_matrix(%r, full)" % text})
         return
     spec = fitted[0].model_spec
+
+    # restricted-data oracle on the hand-written table: the formula really reads every column listed for it, so the full frame
+    # minus any one of them must fail with a factor-evaluation error (never silently evaluate something else)
+    for cname in needs:
+        less = full[[k for k in full.columns if k != cname]]
+        o = outcome(lambda: model_matrix(text, less, context=REQ_CONTEXT))
+        col.count("materializations")
+        if o[0] == "ok":
+            bad("missing-column-silently-accepted", "without %r" % cname,
+                {"removed": cname, "repro": base_repro + "print(model_matrix(%r, full.drop(columns=[%r])))  # must raise" % (text, cname)})
+        elif o[0] != "FactorEvaluationError":
+            bad("missing-column-raises-other-error", "without %r" % cname,
+                {"removed": cname, "outcome": o, "repro": base_repro + "model_matrix(%r, full.drop(columns=[%r]))" % (text, cname)})
 
     phases = []
     try:
@@ -194,6 +226,8 @@ def drv_required(c, ctx, col):
 
     col.interesting()
     for phase, R, mat, rexpr, mexpr in phases:
+        n_before = col.n_violations
+        reported_all = list(R)
         info = {"reported": R, "repro": base_repro + "print(%s)" % rexpr}
         if phase == "formula":
             # documented limitation of Formula.required_variables: without a context it cannot tell a column from a constant that
@@ -229,6 +263,9 @@ def drv_required(c, ctx, col):
                     dict(info, removed=r, repro=base_repro + "d = full[%r]; %s  # succeeds without %r" % (list(less.columns), mexpr, r)))
             elif o[0] != "FactorEvaluationError":
                 bad(phase + "-missing-column-raises-other-error", "without %r" % r, dict(info, removed=r, outcome=o))
+        if col.n_violations == n_before and sorted(R) != sorted(needs):
+            # the operational oracles are blind when a missing column is silently replaced by something else
+            bad(phase + "-required-variables-differ-from-columns-read", "reported %r" % (R,), dict(info, reported_before_filtering=reported_all))
 
 
 # ----------------------------------------------------------------------------
@@ -395,6 +432,91 @@ def drv_resolution(c, ctx, col):
     if stray:
         col.violation("resolution-source(stray) :: " + key_tail, dict(detail, variables_by_source=vbs, unexpected_variables=stray),
                       sig="variables-by-source-lists-unused-variable")
+
+
+# ----------------------------------------------------------------------------
+# name resolution when a fitted spec is re-used with a different set of defining layers
+
+def _expected(role, name, template, in_data, in_ctx):
+    from formulaic.transforms import TRANSFORMS
+    in_tr = name in TRANSFORMS
+    winner = "data" if in_data else "context" if in_ctx else "transforms" if in_tr else None
+    a = np.array(DATA_A)
+    ctxval = CTX_VALUE if role == "value" else _ctx_callable
+    wval = {"data": np.array(DATA_NAME), "context": ctxval, "transforms": TRANSFORMS.get(name), None: None}[winner]
+    if winner is None:
+        return winner, "error"
+    if role == "value":
+        if template == "NAME":
+            return winner, ("unspecified" if callable(wval) else np.asarray(wval, dtype=float))
+        return winner, _probe(wval)
+    if not callable(wval):
+        return winner, "error"
+    if winner == "transforms":
+        return winner, (np.log(a) if name == "log" else a - a.mean())
+    return winner, a * 100.0
+
+
+def drv_resolution_reuse(c, ctx, col):
+    from formulaic import model_matrix
+
+    role = c.pick(["value", "callable"])
+    name = c.pick(["vq", "log"] if role == "value" else ["fq", "log"])
+    template = c.pick(["NAME", "probe(NAME)"] if role == "value" else ["NAME(a)"])
+    d1, c1, d2, c2 = c.flag(), c.flag(), c.flag(), c.flag()
+    text = template.replace("NAME", name) + " - 1"
+    ctxval = CTX_VALUE if role == "value" else _ctx_callable
+
+    def world(in_data, in_ctx):
+        data = {"a": DATA_A}
+        if in_data:
+            data[name] = DATA_NAME
+        context = {"probe": _probe}
+        if in_ctx:
+            context[name] = ctxval
+        return pd.DataFrame(data), context
+
+    w1, want1 = _expected(role, name, template, d1, c1)
+    w2, want2 = _expected(role, name, template, d2, c2)
+    if isinstance(want1, str) or (isinstance(want2, str) and want2 == "unspecified"):
+        raise Skip()  # the spec must be fittable; lookups of a function are unspecified
+    data1, ctx1 = world(d1, c1)
+    data2, ctx2 = world(d2, c2)
+    cfg = "name=%s role=%s fitted with {data:%s, context:%s} -> re-used with {data:%s, context:%s}" % (name, role, d1, c1, d2, c2)
+    tail = "%r :: %s" % (text, cfg)
+    fitted = model_matrix(text, data1, context=ctx1)
+    res = []
+    o = outcome(lambda: res.append(fitted.model_spec.get_model_matrix(data2, context=ctx2)))
+    col.interesting()
+    col.sample({"formula": text, "config": cfg, "layer_at_fit": w1, "layer_at_reuse": w2})
+    detail = {"formula": text, "config": cfg, "layer_at_fit": w1, "expected_layer_at_reuse": w2, "outcome": o,
+              "repro": "fit = model_matrix(%r, data1, context=ctx1); mm = fit.model_spec.get_model_matrix(data2, context=ctx2); "
+                       "print(mm, mm.model_spec.variables_by_source, mm.model_spec.required_variables)  # layers as in 'config'" % text}
+    if isinstance(want2, str):
+        if o[0] == "ok":
+            col.violation("reuse-should-fail :: " + tail, detail, sig="reuse-resolution-uses-wrong-layer")
+        elif o[0] != "FactorEvaluationError":
+            col.violation("reuse-other-error :: " + tail, detail, sig="reuse-resolution-raises-other-error")
+        else:
+            col.count("agree:error")
+        return
+    if o[0] != "ok":
+        col.violation("reuse-fails :: " + tail, detail, sig="reuse-resolution-fails-although-defined")
+        return
+    mm = res[0]
+    got = np.asarray(mm, dtype=float)
+    if got.shape != (6, 1) or not np.allclose(got[:, 0], want2, rtol=1e-9, atol=1e-12):
+        col.violation("reuse-value :: " + tail, dict(detail, got=got.tolist(), want=np.asarray(want2).tolist()), sig="reuse-resolution-uses-wrong-layer")
+    else:
+        col.count("agree:value")
+    vbs = {k: sorted(str(v) for v in vs) for k, vs in mm.model_spec.variables_by_source.items()}
+    where = sorted(str(k) for k, vs in vbs.items() if name in vs)
+    rv = sorted(str(v) for v in mm.model_spec.required_variables)
+    if where != [w2] or ((name in rv) != (w2 == "data")):
+        col.violation("reuse-source :: " + tail, dict(detail, variables_by_source=vbs, reported_layers=where, required_variables=rv),
+                      sig="reuse-variables-by-source-stale" if where == [w1] and w1 != w2 else "reuse-variables-by-source-wrong")
+    else:
+        col.count("agree:source")
 
 
 # ----------------------------------------------------------------------------
@@ -609,6 +731,10 @@ def subchecks(tier, seed):
                     "layers": "all 2^3 combinations of {data, context, transforms} per role",
                     "templates": ["NAME", "probe(NAME)", "{NAME + 0}", "NAME(a)", "probe(NAME(a))"], "sides": ["rhs", "lhs"],
                     "entry_points": RES_ROUTES}),
+        Sub("resolution-reuse", drv_resolution_reuse, {}, shard_depth=3,
+            bounds={"names": {"value": ["vq", "log"], "callable": ["fq", "log"]}, "templates": ["NAME", "probe(NAME)", "NAME(a)"],
+                    "layers": "every combination of {data, context} defining the name at fit x every combination at re-use "
+                              "(the fit must succeed)", "entry_point": "fitted.model_spec.get_model_matrix(data2, context=ctx2)"}),
         Sub("mutation-histories", drv_histories, {"depth": 3 if quick else 4, "terms": _hist_terms()}, shard_depth=3,
             bounds={"initial": HIST_INITIAL, "events": [list(e) for e in HIST_EVENTS], "max_events": 3 if quick else 4,
                     "note": "every history of <= max_events events on a SimpleFormula (also the rhs of a structured formula and the "
